@@ -734,7 +734,7 @@ class Engine:
                 return base.methods[fn.attr](self, e, st, spec)
             if isinstance(base, PyObj) and isinstance(base.attrs.get(fn.attr), PyObj) and base.attrs[fn.attr].call is not None:
                 return base.attrs[fn.attr].call(self, e, st, spec)
-        if name == "abs":
+        if name in ("abs", "np.abs", "np.absolute", "np.fabs", "math.fabs") and len(args) == 1:
             v = self.ev(args[0], st, spec)
             if isinstance(v, (int, float)):
                 return abs(v)
